@@ -266,7 +266,12 @@ def opServe : Op
     let lbTag := (if lbEmail then "" else "LAYERB-EMAIL-MISMATCH ") ++ (if lbCon then "" else "LAYERB-AUTHONLY-MISMATCH ") ++ (if lbSession then "" else "LAYERB-SESSION-MISMATCH ") ++ (if lbCsrf then "" else "LAYERB-CSRF-MISMATCH ")
       ++ (if lbRd then "" else s!"LAYERB-REDIRECT-MISMATCH({hex rdModel}) ") ++ (if lbApp then "" else "LAYERB-APPRD-MISMATCH ")
     -- render
-    let sset := r.cookies.any (fun c => match c with | .setSession _ => true | _ => false)
+    -- the cookie store's Clear drops session cookies already written to the response (fix:); the Redis
+    -- manager's ticket cookie set by an earlier Save stays in the header list next to its deletion
+    let sset := r.cookies.foldl (fun acc c => match c with
+      | .setSession _ => true
+      | .clearSession => if redis then acc else false
+      | _ => acc) false
     let cleared := r.cookies.any (fun c => match c with | .clearSession => true | _ => false)
     let presented := (req.cookies.map (·.1)).filter (isSessionCookieNameD cfg.cookieName)
     let dels : List String :=
